@@ -199,7 +199,7 @@ def run_case(case):
 
         def plan(defer, outc=outc, pending=pending):
             k = outc['kind']
-            spec_ = pending['spec']
+            spec_ = pending.get('spec') or {'out': ''}
             if k in ('value', 'deferred', 'deferred-fail', 'wrong-type', 'wrong-arity'):
                 vals = S.to_py_list(spec_['out'], outc['trees'], outc.get('pres', [])) if spec_['out'] else []
                 nret = len(vals)
@@ -334,7 +334,7 @@ def run_case(case):
             continue
         k = outc['kind']
         if k in ('value', 'deferred'):
-            spec = ran_spec or pending['spec']
+            spec = ran_spec or pending.get('spec') or {'out': '<no method should have run>'}
             if d['type'] != 2:
                 out.append(Disc('return.not-a-method-return', '%s: %s' % (where, _desc(rep))))
             elif d['body_sig'] != spec['out'] or d['body'] != (outc['trees'] if spec['out'] else []):
